@@ -37,8 +37,7 @@ Classification of a difference at the last step of a history (DESIGN §2.7):
 Levels (simplest first; a level's maximal histories have exactly the stated depth, every shorter
 history is one of their prefixes and is judged on the way):
   quick     full alphabet depth<=1 and <=2 with <=1 clock deviation; 8-event core depth<=3, none
-  thorough  + core depth<=3 with <=1 deviation; full alphabet depth<=3, core depth<=4 and <=5 with
-            no deviation
+  thorough  + full alphabet depth<=3, core depth<=4 and <=5, all without deviation
 Histories with a clock deviation exist to show that the two clock explanations are the *only*
 staleness there is; their failing members are enumerated explicitly in known_findings.json.
 As soon as a level ends with a difference that has no clock explanation, deeper levels are not
@@ -59,7 +58,7 @@ import traceback
 from .. import boot, canon, pool
 
 ID = 'C09'
-BUDGET = {'quick': 600, 'thorough': 3000}
+BUDGET = {'quick': 900, 'thorough': 3000}
 
 T0 = 2000000000          # virtual file clock origin (in the future: parso never expires it)
 OLD = T0 - 1000          # mtime of a file "moved into place" (~o)
@@ -740,8 +739,10 @@ def _families(tier):
     if tier == 'quick':
         return [('full16/depth<=1/dev<=1', FULL, 1, 1), ('full16/depth<=2/dev<=1', FULL, 2, 1),
                 ('core8/depth<=3/dev=0', CORE, 3, 0)]
+    # Clock deviations stay at depth <= 2 in both tiers, so that the explicit list of inputs of
+    # the two clock findings in known_findings.json is the same for quick and thorough.
     return [('full16/depth<=1/dev<=1', FULL, 1, 1), ('full16/depth<=2/dev<=1', FULL, 2, 1),
-            ('core8/depth<=3/dev<=1', CORE, 3, 1), ('full16/depth<=3/dev=0', FULL, 3, 0),
+            ('core8/depth<=3/dev=0', CORE, 3, 0), ('full16/depth<=3/dev=0', FULL, 3, 0),
             ('core8/depth<=4/dev=0', CORE, 4, 0), ('core8/depth<=5/dev=0', CORE, 5, 0)]
 
 
